@@ -129,4 +129,59 @@ func holdTimerNeedsNonZeroHoldTime(c *core.Ctx) {
 		}
 	}
 	c.Check(n >= 2, rule, "hold timer expiry call sites found", 0, fmt.Sprintf("found %d, expected OpenConfirm and Established", n))
+	// the proxy `keepaliveTimer != nil` stands for `hold time != 0` only if the timer is (re)assigned whenever the hold
+	// time is: in every function that assigns FSM.holdTime each path from that assignment to a return assigns
+	// FSM.keepaliveTimer too (a fresh timer, or nil) — a timer left over from an earlier session would otherwise make a
+	// session with hold time 0 expire at once
+	nSet := 0
+	for _, f := range p.FuncsIn(srv) {
+		if f.Decl.Body == nil || isTestFn(p, f) {
+			continue
+		}
+		setsHT := func(nd ast.Node) bool {
+			as, ok := nd.(*ast.AssignStmt)
+			if !ok {
+				return false
+			}
+			for _, l := range as.Lhs {
+				if core.FieldOf(f.Pkg, l) == ht && ht != nil {
+					return true
+				}
+			}
+			return false
+		}
+		setsKA := func(nd ast.Node) bool {
+			as, ok := nd.(*ast.AssignStmt)
+			if !ok {
+				return false
+			}
+			for _, l := range as.Lhs {
+				if core.FieldOf(f.Pkg, l) == ka && ka != nil {
+					return true
+				}
+			}
+			return false
+		}
+		has := false
+		ast.Inspect(f.Decl.Body, func(nd ast.Node) bool {
+			if st, ok := nd.(ast.Stmt); ok && setsHT(st) {
+				has = true
+			}
+			return true
+		})
+		if !has {
+			continue
+		}
+		nSet++
+		c.Analysed(f)
+		isRet := func(nd ast.Node) bool { _, ok := nd.(*ast.ReturnStmt); return ok }
+		hits := core.PathAvoidingFrom(p.CFG(f), setsHT, setsKA, isRet)
+		pos := f.Decl.Pos()
+		if len(hits) > 0 {
+			pos = hits[0].Pos()
+		}
+		c.Check(len(hits) == 0, rule, f.Name()+" assigns the keepalive timer whenever it assigns the hold time", pos,
+			"the negotiated hold time is stored and on some path the function returns without (re)assigning FSM.keepaliveTimer: the timer of an earlier session of this FSM survives into a session with hold time 0, where `keepaliveTimer != nil` lets the hold timer expire at the first check")
+	}
+	c.Check(nSet >= 1, rule, "hold time assignments found", 0, "no function assigns FSM.holdTime")
 }
